@@ -94,9 +94,131 @@ func koOf(s *Sx) func(any) fp.Option[any] {
 	}
 }
 
+// transformer operands: (tsome n) (tnone) (tseq n...) (tfail e) (tsomenil)
+func toOf(s *Sx) fp.Try[fp.Option[any]] {
+	switch s.Head() {
+	case "tsome":
+		return fp.Success(fp.Some[any](s.List[1].Int()))
+	case "tsomenil":
+		return fp.Success(fp.Some[any](nil))
+	case "tnone":
+		return fp.Success(fp.None[any]())
+	}
+	return fp.Failure[fp.Option[any]](E(s.List[1].Int()))
+}
+
+func tsOf(s *Sx) fp.Try[fp.Seq[any]] {
+	if s.Head() == "tseq" {
+		xs := fp.Seq[any]{}
+		for _, x := range s.List[1:] {
+			xs = append(xs, x.Int())
+		}
+		return fp.Success(xs)
+	}
+	return fp.Failure[fp.Seq[any]](E(s.List[1].Int()))
+}
+
+func ktoOf(s *Sx) func(any) fp.Try[fp.Option[any]] {
+	k := KTOf(s)
+	return func(x any) fp.Try[fp.Option[any]] {
+		t := k(x)
+		if t.IsSuccess() {
+			if Emod(AsInt(t.Get()), 2) == 0 {
+				return fp.Success(fp.None[any]())
+			}
+			return fp.Success(fp.Some(t.Get()))
+		}
+		return fp.Failure[fp.Option[any]](t.Failed().Get())
+	}
+}
+
+func ktsOf(s *Sx) func(any) fp.Try[fp.Seq[any]] {
+	k := KTOf(s)
+	return func(x any) fp.Try[fp.Seq[any]] {
+		t := k(x)
+		if t.IsSuccess() {
+			return fp.Success(fp.Seq[any]{t.Get(), x})
+		}
+		return fp.Failure[fp.Seq[any]](t.Failed().Get())
+	}
+}
+
 func runOp(op *Sx) string {
 	a := op.List
 	switch op.Head() {
+	// try.OptionT
+	case "optT.pure":
+		return Show(try.PureOptionT[any](a[1].Int()))
+	case "optT.lift":
+		return Show(try.LiftOptionT(tOf(a[1])))
+	case "optT.map":
+		return Show(try.MapOptionT(toOf(a[1]), F1Of(a[2])))
+	case "optT.subFlatMap":
+		return Show(try.SubFlatMapOptionT(toOf(a[1]), koOf(a[2])))
+	case "optT.traverse":
+		return Show(try.TraverseOptionT(toOf(a[1]), KTOf(a[2])))
+	case "optT.flatMap":
+		return Show(try.FlatMapOptionT(toOf(a[1]), ktoOf(a[2])))
+	case "optT.filter":
+		return Show(try.FilterOptionT(toOf(a[1]), P1Of(a[2])))
+	case "optT.orElse":
+		return Show(try.OrElseOptionT(toOf(a[1]), any(a[2].Int())))
+	case "optT.orElseGet":
+		return Show(try.OrElseGetOptionT(toOf(a[1]), sup(a[2])))
+	case "optT.or":
+		o2 := oOf(a[3])
+		id := a[2].Int()
+		return Show(try.OrOptionT(toOf(a[1]), func() fp.Option[any] { Emit("s%d", id); return o2 }))
+	case "optT.orOption":
+		return Show(try.OrOptionOptionT(toOf(a[1]), oOf(a[2])))
+	case "optT.recover":
+		return Show(try.RecoverOptionT(toOf(a[1]), sup(a[2])))
+	case "optT.fold":
+		return Show(try.FoldOptionT(toOf(a[1]), any(a[2].Int()), F2Of(a[3])))
+	// try.SeqT
+	case "seqT.pure":
+		return Show(try.PureSeqT[any](a[1].Int()))
+	case "seqT.lift":
+		return Show(try.LiftSeqT(tOf(a[1])))
+	case "seqT.map":
+		return Show(try.MapSeqT(tsOf(a[1]), F1Of(a[2])))
+	case "seqT.subFlatMap":
+		f := F1Of(a[2])
+		return Show(try.SubFlatMapSeqT(tsOf(a[1]), func(x any) fp.Seq[any] { return fp.Seq[any]{f(x), x} }))
+	case "seqT.traverse":
+		return Show(try.TraverseSeqT(tsOf(a[1]), KTOf(a[2])))
+	case "seqT.flatMap":
+		return Show(try.FlatMapSeqT(tsOf(a[1]), ktsOf(a[2])))
+	case "seqT.filter":
+		return Show(try.FilterSeqT(tsOf(a[1]), P1Of(a[2])))
+	case "seqT.filterNot":
+		return Show(try.FilterNotSeqT(tsOf(a[1]), P1Of(a[2])))
+	case "seqT.exists":
+		return Show(try.ExistsSeqT(tsOf(a[1]), P1Of(a[2])))
+	case "seqT.forAll":
+		return Show(try.ForAllSeqT(tsOf(a[1]), P1Of(a[2])))
+	case "seqT.find":
+		return Show(try.FindSeqT(tsOf(a[1]), P1Of(a[2])))
+	case "seqT.add":
+		return Show(try.AddSeqT(tsOf(a[1]), any(a[2].Int())))
+	case "seqT.take":
+		return Show(try.TakeSeqT(tsOf(a[1]), a[2].Int()))
+	case "seqT.drop":
+		return Show(try.DropSeqT(tsOf(a[1]), a[2].Int()))
+	case "seqT.head":
+		return Show(try.HeadSeqT(tsOf(a[1])))
+	case "seqT.last":
+		return Show(try.LastSeqT(tsOf(a[1])))
+	case "seqT.tail":
+		return Show(try.TailSeqT(tsOf(a[1])))
+	case "seqT.init":
+		return Show(try.InitSeqT(tsOf(a[1])))
+	case "seqT.reverse":
+		return Show(try.ReverseSeqT(tsOf(a[1])))
+	case "seqT.size":
+		return Show(try.SizeSeqT(tsOf(a[1])))
+	case "seqT.fold":
+		return Show(try.FoldSeqT(tsOf(a[1]), any(a[2].Int()), F2Of(a[3])))
 	// fp.Try methods
 	case "t.map":
 		return Show(tOf(a[1]).Map(F1Of(a[2])))
@@ -255,6 +377,74 @@ func genH(r *Rng) *Sx {
 	return L(A("h"), I(NewID()), I(r.Range(0, 9)))
 }
 
+var tops = []string{"optT.pure", "optT.lift", "optT.map", "optT.subFlatMap", "optT.traverse", "optT.flatMap", "optT.filter", "optT.orElse",
+	"optT.orElseGet", "optT.or", "optT.orOption", "optT.recover", "optT.fold", "seqT.pure", "seqT.lift", "seqT.map", "seqT.subFlatMap",
+	"seqT.traverse", "seqT.flatMap", "seqT.filter", "seqT.filterNot", "seqT.exists", "seqT.forAll", "seqT.find", "seqT.add", "seqT.take",
+	"seqT.drop", "seqT.head", "seqT.last", "seqT.tail", "seqT.init", "seqT.reverse", "seqT.size", "seqT.fold"}
+
+func genTO(r *Rng) *Sx {
+	switch r.Intn(8) {
+	case 0, 1:
+		return L(A("tnone"))
+	case 2:
+		return L(A("tfail"), I(r.Range(1, 5)))
+	case 3:
+		if r.Intn(3) == 0 {
+			return L(A("tsomenil"))
+		}
+	}
+	return L(A("tsome"), I(r.Range(-3, 9)))
+}
+
+func genTS(r *Rng) *Sx {
+	if r.Intn(6) == 0 {
+		return L(A("tfail"), I(r.Range(1, 5)))
+	}
+	xs := []*Sx{A("tseq")}
+	for i, n := 0, r.Intn(5); i < n; i++ {
+		xs = append(xs, I(r.Range(-3, 9)))
+	}
+	return L(xs...)
+}
+
+func genTOp(r *Rng) *Sx {
+	n := Pick(r, tops...)
+	switch n {
+	case "optT.pure", "seqT.pure":
+		return L(A(n), I(r.Range(-3, 9)))
+	case "optT.lift", "seqT.lift":
+		return L(A(n), genT(r))
+	case "optT.map":
+		return L(A(n), genTO(r), GenF1(r, true))
+	case "optT.subFlatMap", "optT.traverse", "optT.flatMap":
+		return L(A(n), genTO(r), GenKT(r, true))
+	case "optT.filter":
+		return L(A(n), genTO(r), GenP1(r, true))
+	case "optT.orElse":
+		return L(A(n), genTO(r), I(r.Range(0, 9)))
+	case "optT.orElseGet", "optT.recover":
+		return L(A(n), genTO(r), genSup(r, 2))
+	case "optT.or":
+		return L(A(n), genTO(r), I(NewID()), genO(r))
+	case "optT.orOption":
+		return L(A(n), genTO(r), genO(r))
+	case "optT.fold":
+		return L(A(n), genTO(r), I(r.Range(0, 9)), GenF2(r, true))
+	case "seqT.map", "seqT.subFlatMap":
+		return L(A(n), genTS(r), GenF1(r, true))
+	case "seqT.traverse", "seqT.flatMap":
+		return L(A(n), genTS(r), GenKT(r, true))
+	case "seqT.filter", "seqT.filterNot", "seqT.exists", "seqT.forAll", "seqT.find":
+		return L(A(n), genTS(r), GenP1(r, true))
+	case "seqT.add", "seqT.take", "seqT.drop":
+		return L(A(n), genTS(r), I(r.Range(0, 5)))
+	case "seqT.fold":
+		return L(A(n), genTS(r), I(r.Range(0, 9)), GenF2(r, true))
+	default:
+		return L(A(n), genTS(r))
+	}
+}
+
 var ops = []string{"t.map", "t.flatMap", "t.mapError", "t.orElse", "t.orElseGet", "t.or", "t.orTry", "t.recover", "t.recoverWith",
 	"t.recoverCase", "t.recoverCaseWith", "t.get", "t.foreach", "t.toSeq", "t.isSuccess", "try.fromOption", "try.of", "try.call", "try.callUnit",
 	"try.apply", "try.composeOption", "try.composePure", "try.fold", "try.toSeq", "try.flatMap", "o.filter", "o.filterNot", "o.map", "o.flatMap",
@@ -263,6 +453,9 @@ var ops = []string{"t.map", "t.flatMap", "t.mapError", "t.orElse", "t.orElseGet"
 
 func genOp(r *Rng) *Sx {
 	ResetIDs()
+	if r.Intn(3) == 0 {
+		return genTOp(r)
+	}
 	n := Pick(r, ops...)
 	switch n {
 	case "t.map":
@@ -335,8 +528,55 @@ func genOp(r *Rng) *Sx {
 func runCase(op *Sx) string { return Outcome(func() string { return runOp(op) }) }
 
 // direct: C02's statements evaluated on the implementation
+var prop = "C02"
+
 func direct(r *Rng, sink *Sink, n int) int {
 	checks := 0
+	if prop == "C02" {
+		// traverse functions of elements AFTER a failing element must not be invoked (C02)
+		for i := 0; i < n/10+2; i++ {
+			m := r.Range(2, 5)
+			at := r.Intn(m)
+			xs := fp.Seq[any]{}
+			for j := 0; j < m; j++ {
+				xs = append(xs, j)
+			}
+			later := 0
+			f := func(x any) fp.Try[any] {
+				if AsInt(x) > at {
+					later++
+				}
+				if AsInt(x) == at {
+					return fp.Failure[any](E(7))
+				}
+				return fp.Success(x)
+			}
+			type tr struct {
+				name string
+				run  func() fp.Try[fp.Seq[any]]
+			}
+			for _, t := range []tr{
+				{"try.TraverseSeq", func() fp.Try[fp.Seq[any]] { return try.TraverseSeq(xs, f) }},
+				{"try.TraverseSeqT", func() fp.Try[fp.Seq[any]] { return try.TraverseSeqT(fp.Success(xs), f) }},
+				{"try.FlatMapSeqT", func() fp.Try[fp.Seq[any]] {
+					return try.FlatMapSeqT(fp.Success(xs), func(x any) fp.Try[fp.Seq[any]] {
+						return try.Map(f(x), func(v any) fp.Seq[any] { return fp.Seq[any]{v} })
+					})
+				}},
+			} {
+				later = 0
+				res := t.run()
+				checks++
+				if res.IsSuccess() || res.Failed().Get() != E(7) {
+					sink.DirectFail(t.name+"/first-failure", fmt.Sprintf("(law traverse-short-circuit n=%d failAt=%d)", m, at), "result "+Show(res))
+				}
+				if later != 0 && at < m-1 {
+					sink.DirectFail(t.name+"/later-functions-invoked", fmt.Sprintf("(law traverse-short-circuit n=%d failAt=%d)", m, at),
+						fmt.Sprintf("the traverse function was invoked on %d element(s) positioned after the failing one", later))
+				}
+			}
+		}
+	}
 	for i := 0; i < n; i++ {
 		v, e, p := r.Range(-5, 50), r.Range(1, 9), r.Range(1, 99)
 		calls := 0
@@ -397,6 +637,7 @@ func main() {
 	out := flag.String("out", ".", "output directory")
 	replay := flag.String("replay", "", "run one op line")
 	opsFile := flag.String("ops", "", "run the op lines of this file")
+	flag.StringVar(&prop, "prop", "C02", "which property's direct checks to run (C01 | C02)")
 	flag.Parse()
 	if *replay != "" {
 		op, err := Parse(*replay)
